@@ -264,6 +264,18 @@ def attempts(rng, lang, factory, res, count=True):
             f = attempt('dup-link', False, model, [z, x], [y])
             if f:
                 return f
+        # the duplicate is held by a LATER association of the same left asset
+        if a['rightMultiplicity']['max'] is None or a['rightMultiplicity']['max'] >= 2 or True:
+            model, objs = fresh([rng.choice(lconc), rng.choice(rconc), rng.choice(rconc), rng.choice(lconc)])
+            x, y1, y2, x2 = objs
+            if attempt('first-link', True, model, [x], [y1]) is None and attempt('first-link', True, model, [x], [y2]) is None:
+                f = attempt('dup-link', False, model, [x], [y2])
+                if f:
+                    return (f[0] + ':held-by-later-association', f[1])
+                if a['leftMultiplicity']['max'] is None or a['leftMultiplicity']['max'] >= 2:
+                    f = attempt('dup-link', False, model, [x2, x], [y2])
+                    if f:
+                        return (f[0] + ':held-by-later-association', f[1])
         # ... also after an unrelated removal that leaves another instance of the class
         model, objs = fresh([rng.choice(lconc), rng.choice(rconc), rng.choice(lconc), rng.choice(rconc)])
         x, y, x2, y2 = objs
